@@ -289,6 +289,11 @@ pub fn find_weights(rng: &mut Rng, g: &GraphSpec, profile: WeightProfile) -> Opt
 /// slack exactly 2^-k (k in 20..50) while all others stay positive: a graph just inside the
 /// convergence region, with exactly representable (dyadic) weights.
 pub fn extreme_marginal(rng: &mut Rng, g: &GraphSpec) -> Option<(Vec<f64>, f64)> {
+    extreme_marginal_with(rng, g, &[20, 30, 36, 40, 44], 44)
+}
+
+/// same with the slack drawn from 2^-k, k in `ks`, and weights on the grid 2^-grid_bits
+pub fn extreme_marginal_with(rng: &mut Rng, g: &GraphSpec, ks: &[i32], grid_bits: i32) -> Option<(Vec<f64>, f64)> {
     let go = GO::new(g);
     let cons = constraints(&go);
     let ne = go.ne;
@@ -298,7 +303,7 @@ pub fn extreme_marginal(rng: &mut Rng, g: &GraphSpec) -> Option<(Vec<f64>, f64)>
         let v: f64 = c.a.iter().zip(&g.weights).map(|(a, x)| a * x).sum::<f64>() - c.b;
         // every weight stays a multiple of 2^-44 below 16, so that all partial sums the library
         // forms are exact in f64 (the graph the library sees is the graph the oracle sees)
-        let k = *rng.pick(&[20, 30, 36, 40, 44]);
+        let k = *rng.pick(ks);
         let t = 2f64.powi(-k);
         if !(v > t) {
             continue;
@@ -313,7 +318,7 @@ pub fn extreme_marginal(rng: &mut Rng, g: &GraphSpec) -> Option<(Vec<f64>, f64)>
         if !(w[e] > 0.0) {
             continue;
         }
-        let exact_grid = w.iter().all(|x| (x * 2f64.powi(44)).fract() == 0.0) && w.iter().sum::<f64>() < 16.0;
+        let exact_grid = w.iter().all(|x| (x * 2f64.powi(grid_bits)).fract() == 0.0) && w.iter().sum::<f64>() < 16.0;
         if !exact_grid {
             continue;
         }
@@ -340,6 +345,10 @@ pub struct GraphOpts {
     pub d_choices: Vec<usize>,
     /// probability of a graph with two connected components (externals in the first one)
     pub disconnected_prob: f64,
+    /// probability of a graph with 7-9 loops (bananas, double bananas, roses), beyond max_loops
+    pub big_loop_prob: f64,
+    /// probability of adding 16..64 to the weight of the massive propagators
+    pub heavy_massive_prob: f64,
 }
 
 impl GraphOpts {
@@ -352,6 +361,8 @@ impl GraphOpts {
             named_prob: 0.3,
             d_choices: vec![1, 2, 3, 4, 5, 6],
             disconnected_prob: 0.0,
+            big_loop_prob: 0.0,
+            heavy_massive_prob: 0.06,
         }
     }
 }
@@ -360,7 +371,17 @@ impl GraphOpts {
 /// convergence region (every sub-dod > 0 and overall dod > 0). Retries internally.
 pub fn accepted_graph(rng: &mut Rng, o: &GraphOpts) -> Option<(GraphSpec, String)> {
     for _ in 0..40 {
-        let (name, mut edges): (String, Vec<(u8, u8)>) = if rng.chance(o.named_prob) {
+        let (name, mut edges): (String, Vec<(u8, u8)>) = if rng.chance(o.big_loop_prob) {
+            let k = rng.below(5);
+            let par = |a: u8, b: u8, n: usize| -> Vec<(u8, u8)> { (0..n).map(|i| if i % 2 == 0 { (a, b) } else { (b, a) }).collect() };
+            match k {
+                0 => ("banana8".to_string(), par(0, 1, 8)),
+                1 => ("banana9".to_string(), par(0, 1, 9)),
+                2 => ("banana10".to_string(), par(0, 1, 10)),
+                3 => ("double_banana5+4".to_string(), [par(0, 1, 5), par(1, 2, 4)].concat()),
+                _ => ("rose7_on_bubble".to_string(), [par(0, 1, 2), (0..6).map(|_| (1u8, 1u8)).collect()].concat()),
+            }
+        } else if rng.chance(o.named_prob) {
             let all = named_topologies();
             let cands: Vec<_> = all
                 .into_iter()
@@ -440,7 +461,22 @@ pub fn accepted_graph(rng: &mut Rng, o: &GraphOpts) -> Option<(GraphSpec, String
         };
         if let Some(w) = find_weights(rng, &g, profile) {
             g.weights = w;
-            return Some((g, format!("{}:{:?}", name, profile)));
+            let mut name = format!("{}:{:?}", name, profile);
+            if rng.chance(o.heavy_massive_prob) && g.massive.iter().any(|m| *m) {
+                // heavier massive propagators leave every sub-dod of the region unchanged or larger
+                let h = *rng.pick(&[16.0, 24.0, 40.0, 64.0]);
+                let one = rng.chance(0.5);
+                let first = g.massive.iter().position(|m| *m).unwrap();
+                let mut total: f64 = qf(&GO::new(&g).dod());
+                for e in 0..ne {
+                    if g.massive[e] && (!one || e == first) && total + h < 95.0 {
+                        g.weights[e] += h;
+                        total += h;
+                    }
+                }
+                name.push_str("+heavy_massive");
+            }
+            return Some((g, name));
         }
     }
     None
@@ -1148,6 +1184,22 @@ pub fn any_graph(rng: &mut Rng, emax: usize) -> (GraphSpec, String) {
                     if let Some((w2, min)) = extreme_marginal(rng, &g) {
                         g.weights = w2;
                         desc.push_str(&format!("+extreme_marginal(min_sub_dod={:e})", min));
+                    }
+                } else if rng.chance(0.12) && g.massive.iter().any(|m| *m) {
+                    // a tiny positive sub-dod next to very heavy massive propagators (sums stay exact:
+                    // grid 2^-30, magnitudes below 2^22)
+                    if let Some((mut w2, min)) = extreme_marginal_with(rng, &g, &[22, 24, 27, 29], 30) {
+                        let a = *rng.pick(&[12, 14, 16, 18]);
+                        let nm = g.massive.iter().filter(|m| **m).count() as f64;
+                        if nm * 2f64.powi(a) + 16.0 < 2f64.powi(22) {
+                            for e in 0..ne {
+                                if g.massive[e] {
+                                    w2[e] += 2f64.powi(a);
+                                }
+                            }
+                            g.weights = w2;
+                            desc.push_str(&format!("+heavy_marginal(min_sub_dod={:e},heavy=2^{})", min, a));
+                        }
                     }
                 } else if rng.chance(0.35) {
                     // cross (or touch) the boundary of the convergence region by a dyadic step
